@@ -80,7 +80,7 @@ def main():
             except Exception as e:  # translator refused: fail-closed
                 ctx.proof_broken = "translator: %s" % e
         # 2. source gate
-        bad = C.gate_sources()
+        bad = C.gate_sources(C.cone_of([rel, "Extract/Ex%s.v" % pid]))
         if bad:
             print("GATE: forbidden construct in the Coq development:\n  " + "\n  ".join(bad))
             sys.exit(2)
